@@ -1324,6 +1324,70 @@ theorem C19_tap1_progress_only_after_success (c : Cfg) (s : St) (t : Int) (i : I
           · rw [h1] at hadv; exact succ_ne_failed s.cur hch hadv.symm
         · rw [ho] at hadv; exact succ_ne_notStarted s.cur hch hadv.symm
 
+/-! schedule: nothing before the start window; idle ticks change nothing -/
+
+/-- Outputs of a run that feeds timesteps `t, t+1, …`. -/
+def runOut (c : Cfg) : St → Int → List In → List (Int × Out)
+  | _, _, [] => []
+  | s, t, i :: is => (t, (step c s t i).2) :: runOut c (step c s t i).1 (t + 1) is
+
+/-- A tick that does not get past the schedule guard returns do-nothing and changes nothing but the history. -/
+theorem C19_tap1_idle_tick (c : Cfg) (s : St) (t : Int) (i : In) (h : executes s t = false) :
+    getAction c s t i = (s, Act.nothing) := by
+  simp [getAction, h]
+
+theorem step_idle (c : Cfg) (s : St) (t : Int) (i : In) (h : executes s t = false) :
+    ((step c s t i).2 = .act Act.nothing ∨ (step c s t i).2 = .raised) ∧ (step c s t i).1.nextExec = s.nextExec := by
+  unfold step
+  split
+  · exact ⟨Or.inr rfl, rfl⟩
+  · rw [C19_tap1_idle_tick c s t i h]
+    split
+    · exact ⟨Or.inr rfl, rfl⟩
+    · exact ⟨Or.inl rfl, rfl⟩
+
+theorem run_nothing_before (c : Cfg) (lo : Int) :
+    ∀ (ins : List In) (s : St) (t : Int), (lo ≤ t ∨ lo ≤ s.nextExec) →
+      ∀ t' a, (t', Out.act a) ∈ runOut c s t ins → a ≠ Act.nothing → lo ≤ t' := by
+  intro ins
+  induction ins with
+  | nil => intro s t _ t' a h; simp [runOut] at h
+  | cons i is ih =>
+    intro s t hJ t' a hmem hne
+    simp only [runOut, List.mem_cons] at hmem
+    cases hex : executes s t with
+    | false =>
+      obtain ⟨hout, hnext⟩ := step_idle c s t i hex
+      rcases hmem with heq | hmem
+      · have h2 : (step c s t i).2 = Out.act a := (Prod.mk.inj heq).2.symm
+        rcases hout with ho | ho
+        · rw [ho] at h2; cases h2; exact absurd rfl hne
+        · rw [ho] at h2; cases h2
+      · refine ih _ (t + 1) ?_ t' a hmem hne
+        rcases hJ with h | h
+        · exact Or.inl (by omega)
+        · exact Or.inr (by rw [hnext]; exact h)
+    | true =>
+      have hge : s.nextExec ≤ t := by
+        simp [executes] at hex; omega
+      have hlo : lo ≤ t := by rcases hJ with h | h <;> omega
+      rcases hmem with heq | hmem
+      · have : t' = t := (Prod.mk.inj heq).1
+        omega
+      · exact ih _ (t + 1) (Or.inl (by omega)) t' a hmem hne
+
+/-- **Nothing before the start window** (TAP001): in every run from the constructor, with the first schedule draw
+`d0 ∈ [-variance, variance]`, every action other than do-nothing happens at a timestep `≥ start_step − variance`. -/
+theorem C19_tap1_nothing_before_start (c : Cfg) (d0 : Int) (s0 : St) (ins : List In)
+    (h0 : init c d0 = some s0) (hd0 : -c.variance ≤ d0) :
+    ∀ t a, (t, Out.act a) ∈ runOut c s0 0 ins → a ≠ Act.nothing → c.startStep - c.variance ≤ t := by
+  have hs : s0.nextExec = c.startStep + d0 := by
+    unfold init at h0
+    split at h0
+    · cases h0; rfl
+    · cases h0
+  exact run_nothing_before c _ ins s0 0 (Or.inr (by rw [hs]; omega))
+
 end Tap1
 
 /-! ## 6. TAP003: the same skeleton (InsiderKillChain) -/
@@ -1846,6 +1910,76 @@ example : ∃ s0, init exCfg 0 = some s0 ∧
     ((run exCfg s0 0 (List.replicate 16 exIn)).map (·.cur)).eraseDups
       = [.notStarted, .reconnaissance, .planning, .access, .manipulation, .exploit, .succeeded] := by
   refine ⟨_, rfl, ?_⟩; decide
+
+/-! schedule: nothing before the start window; idle ticks change nothing -/
+
+/-- Outputs of a run that feeds timesteps `t, t+1, …`. -/
+def runOut (c : Cfg) : St → Int → List In → List (Int × Out)
+  | _, _, [] => []
+  | s, t, i :: is => (t, (step c s t i).2) :: runOut c (step c s t i).1 (t + 1) is
+
+/-- A tick that does not get past the schedule guard returns do-nothing and changes nothing but the history. -/
+theorem C19_tap3_idle_tick (c : Cfg) (s : St) (t : Int) (i : In) (h : executes s t = false) :
+    (getAction c s t i).2 = Act.nothing ∧ (getAction c s t i).1.nextExec = s.nextExec ∧
+    (getAction c s t i).1.cur = s.cur := by
+  have hp := preGuard_fields c s
+  have hex : executes (preGuardHandlers c s) t = false := by
+    simp only [executes, hp.2.2.1, hp.2.2.2] at h ⊢; exact h
+  unfold getAction getActionCore
+  rw [if_pos (by simp [hex])]
+  exact ⟨rfl, hp.2.2.2, hp.1⟩
+
+theorem step_idle (c : Cfg) (s : St) (t : Int) (i : In) (h : executes s t = false) :
+    ((step c s t i).2 = .act Act.nothing ∨ (step c s t i).2 = .raised) ∧ (step c s t i).1.nextExec = s.nextExec := by
+  unfold step
+  split
+  · exact ⟨Or.inr rfl, rfl⟩
+  · have hi := C19_tap3_idle_tick c s t i h
+    split
+    · exact ⟨Or.inr rfl, rfl⟩
+    · refine ⟨Or.inl (by rw [hi.1]), hi.2.1⟩
+
+theorem run_nothing_before (c : Cfg) (lo : Int) :
+    ∀ (ins : List In) (s : St) (t : Int), (lo ≤ t ∨ lo ≤ s.nextExec) →
+      ∀ t' a, (t', Out.act a) ∈ runOut c s t ins → a ≠ Act.nothing → lo ≤ t' := by
+  intro ins
+  induction ins with
+  | nil => intro s t _ t' a h; simp [runOut] at h
+  | cons i is ih =>
+    intro s t hJ t' a hmem hne
+    simp only [runOut, List.mem_cons] at hmem
+    cases hex : executes s t with
+    | false =>
+      obtain ⟨hout, hnext⟩ := step_idle c s t i hex
+      rcases hmem with heq | hmem
+      · have h2 : (step c s t i).2 = Out.act a := (Prod.mk.inj heq).2.symm
+        rcases hout with ho | ho
+        · rw [ho] at h2; cases h2; exact absurd rfl hne
+        · rw [ho] at h2; cases h2
+      · refine ih _ (t + 1) ?_ t' a hmem hne
+        rcases hJ with h | h
+        · exact Or.inl (by omega)
+        · exact Or.inr (by rw [hnext]; exact h)
+    | true =>
+      have hge : s.nextExec ≤ t := by
+        simp [executes] at hex; omega
+      have hlo : lo ≤ t := by rcases hJ with h | h <;> omega
+      rcases hmem with heq | hmem
+      · have : t' = t := (Prod.mk.inj heq).1
+        omega
+      · exact ih _ (t + 1) (Or.inl (by omega)) t' a hmem hne
+
+/-- **Nothing before the start window** (TAP003): in every run from the constructor, with the first schedule draw
+`d0 ∈ [-variance, variance]`, every action other than do-nothing happens at a timestep `≥ start_step − variance`. -/
+theorem C19_tap3_nothing_before_start (c : Cfg) (d0 : Int) (s0 : St) (ins : List In)
+    (h0 : init c d0 = some s0) (hd0 : -c.variance ≤ d0) :
+    ∀ t a, (t, Out.act a) ∈ runOut c s0 0 ins → a ≠ Act.nothing → c.startStep - c.variance ≤ t := by
+  have hs : s0.nextExec = c.startStep + d0 := by
+    unfold init at h0
+    split at h0
+    · cases h0; rfl
+    · cases h0
+  exact run_nothing_before c _ ins s0 0 (Or.inr (by rw [hs]; omega))
 
 end Tap3
 
